@@ -13,7 +13,7 @@ package discov
 //@ spec cInv(c *container) bool = c.values != nil && c.mapping != nil && c.dirty != nil &&
 //@      forall(k.(string), v.(string), iff(inDom(c.mapping, k) && c.mapping[k] == v, inDom(c.values, v) && has(c.values[v], k))) &&
 //@      forall(v.(string), implies(inDom(c.values, v), len(c.values[v]) > 0))
-//@ spec snapOK(c *container) bool = implies(!abVal[c.dirty], forall(v.(string), boxedset(avVal[addr(c.snapshot)])[v] == inDom(c.values, v)))
+//@ spec snapOK(c *container) bool = implies(!abVal[c.dirty], avVal[addr(c.snapshot)] != nil && forall(v.(string), boxedset(avVal[addr(c.snapshot)])[v] == inDom(c.values, v)))
 
 //@ lockinv (c *container) lock: cInv(c) && snapOK(c)
 //@ guarded_by values, mapping
@@ -56,3 +56,20 @@ package discov
 //@   loop 0: invariant cInv(c) && abVal[c.dirty]
 //@   loop 0: invariant forall(k.(string), inDom(c.mapping, k) == (D1[k] && !visited[k]))
 //@   loop 0: invariant forall(k.(string), implies(inDom(c.mapping, k), c.mapping[k] == V1[k]))
+
+// Values(): exactly the values of the registered keys (sequential reading: the invariant holds between operations).
+//@ func (c *container) getValues
+//@   property C13
+//@   requires cInv(c) && snapOK(c)
+//@   ensures  forall(v.(string), has(result, v) == inDom(c.values, v))
+//@   ensures  forall(k.(string), implies(inDom(c.mapping, k), has(result, c.mapping[k])))
+//@   ensures  cInv(c) && snapOK(c)
+//@   loop 0: modifies nothing
+//@   loop 0: invariant forall(v.(string), has(vals, v) == seen[v])
+
+//@ func (c *container) notifyChange
+//@   property C13
+//@   flag callbacks_noheap
+//@   ensures  true
+//@   loop 0: modifies nothing
+//@   loop 0: invariant true
